@@ -24,7 +24,9 @@ ResolvedOk(S, assign, resolved) ==
 (* ---- C15 ---- *)
 RustScalar == [ f32 |-> "f32", f64 |-> "f64", i32 |-> "i32", u32 |-> "u32", i64 |-> "i64", u64 |-> "u64", bool |-> "bool" ]
 CanonOfLit(l) == IF Has(l, "bits") THEN l.ty \o ":" \o l.bits ELSE l.ty \o ":" \o l.dec
-(* named constants of scalar type with an evaluated value: exactly these are exported *)
+(* named constants of scalar type: exactly these are exported, with their constant-evaluated value (a literal, or the zero of the type  *)
+(* for `T()`); Unevaluated = named scalar constants the oracle has no value for (none are known: reported as an oracle gap)          *)
+Unevaluated(oc) == { c \in Range(oc) : c.named /\ c.ty.scalar \in DOMAIN RustScalar /\ ~(Has(c.lit, "ty") /\ c.lit.ty \in DOMAIN RustScalar) }
 Exported(oc) == { c \in Range(oc) : c.named /\ c.ty.scalar \in DOMAIN RustScalar /\ Has(c.lit, "ty") /\ c.lit.ty \in DOMAIN RustScalar }
 ExpectedConsts(oc) == { [ name |-> c.name, type_name |-> RustScalar[c.ty.scalar], canon |-> CanonOfLit(c.lit) ] : c \in Exported(oc) }
 =============================================================================
